@@ -456,6 +456,8 @@ def send_tx(
                     txin_amounts[txin_index],
                     scriptcode,
                     txouts,
+                    version=version,
+                    locktime=locktime,
                     sighash_flag=sighash_flag,
                 )
                 for txin_index in range(len(txins))
